@@ -406,6 +406,37 @@ def nf_grammars():
     return gs
 
 
+def replace_grammars():
+    """C19 / C05: elements that REPLACE the top of the stack (pop-then-push: the depth is the same before and after a matched
+    iteration, the content is not) under every repetition form, after a pushing prefix (1-2 pushes) and before a stack-reading
+    suffix (none: the stack itself is observed; PEEK; PEEK_ALL) in the same rule.  When iteration k matches and k+1 fails, the
+    stack must be what iteration k left - not what an earlier iteration or the prefix left."""
+    ANYAB = ("choice", [S("a"), S("b")])
+    elems = {
+        "d": ([("push", S("a"))], ("seq", "0", [("drop",), ("push", S("b"))])),
+        "t": ([("push", S("a"))], ("pair", ("drop",), ("push", S("b")))),                     # the tuple form `(DROP, Push<..>)`
+        "q": ([("push", ANYAB), ("push", ANYAB)], ("seq", "0", [("pop",), ("push", ("any",))])),
+        "p": ([("push", ANYAB), ("push", ANYAB)], ("seq", "0", [("peek",), ("seq", "0", [("drop",), ("push", ANYAB)])])),
+    }
+    suffixes = {"n": [], "k": [("peek",)], "a": [("peekall",)]}
+    bounds0 = [(0, None), (1, None), (0, 1), (0, 2), (0, 3), (1, 2), (2, 4), (3, 3)]
+    bounds1 = [(0, None), (0, 3), (1, 2), (2, 4)]
+    rules = [ws_rule()]
+    items = []
+    for ek, (pre, el) in elems.items():
+        forms = [(f"r0_{mn}_{'u' if mx is None else mx}", "0", ("rep", "0", mn, mx, el)) for mn, mx in bounds0]
+        forms += [(f"r1_{mn}_{'u' if mx is None else mx}", "1", ("rep", "1", mn, mx, el)) for mn, mx in bounds1]
+        forms += [("arep", "0", ("atomicrepeat", el)), ("opt", "0", ("opt", el)), ("arr1", "0", ("array", 1, el)),
+                  ("arr2", "0", ("array", 2, el)), ("optrep", "0", ("opt", ("seq", "0", [("rep", "0", 1, 3, el), S("a")])))]
+        for fk, sk, form in forms:
+            for sfk, sf in suffixes.items():
+                rules.append(rule(f"{ek}_{fk}_{sfk}", ("seq", sk, pre + [form] + sf)))
+        for k in (0, 1):
+            for mx in (None, 1, 3):
+                items.append(dict(name=f"nf_{ek}_{k}_{'u' if mx is None else mx}", k=k, max=mx, pre=pre[0] if len(pre) == 1 else ("seq", "0", pre), elem=el))
+    return [dict(gid="rep_replace", rules=rules, skipped=WS_SKIP, nf=items)]
+
+
 def slice_grammars():
     """C06: stack depth 0..4 x a,b in -6..6 (b optional), atomic and non-atomic context."""
     gs = []
@@ -477,4 +508,4 @@ def leaf_grammars():
 
 
 def all_raw():
-    return rep_grammars() + nf_grammars() + slice_grammars() + arity_grammars() + leaf_grammars()
+    return rep_grammars() + nf_grammars() + replace_grammars() + slice_grammars() + arity_grammars() + leaf_grammars()
